@@ -33,7 +33,7 @@ def main():
             old = json.load(open(mp))
         meta = dict(
             seed=name, property_targeted=prop,
-            origin=('reverse of a fix: commit in /repo' if name.startswith('RC') else 'independent sub-agent given only the text of the property and a scratch worktree (round %d)' % (1 if name[-1] in '12' else 2)),
+            origin=('reverse of a fix: commit in /repo' if name.startswith('RC') else 'independent sub-agent given only the text of the property and a scratch worktree (round %s)' % {'1': '1', '2': '1', '3': '2', '4': '2', '5': '3: asked for changes that need >= 5 ops or >= 4 actors or >= 3 keys/members', '6': '3: asked for changes that need >= 5 ops or >= 4 actors or >= 3 keys/members'}[name[-1]]),
             files_changed=files,
             what_it_needs_to_manifest=(' '.join(notes.split())[:1400] if notes else ''),
             confirmed_by_me=confirm.get(name, old.get('confirmed_by_me', {})),
